@@ -39,7 +39,11 @@ fn main() {
         return;
     }
     let _ = std::fs::create_dir_all(runner::scratch_root());
-    let code = props::dispatch(&prop, &tier, seed, path.as_deref());
+    let code = if tier == "replay" {
+        replay(&prop, path.as_deref())
+    } else {
+        props::dispatch(&prop, &tier, seed, path.as_deref())
+    };
     // remove our scratch directories
     if let Ok(rd) = std::fs::read_dir(runner::scratch_root()) {
         let prefix = format!("{}-", std::process::id());
@@ -50,4 +54,28 @@ fn main() {
         }
     }
     std::process::exit(code);
+}
+
+/// `pv <ID> replay <file>`: prints the recorded witness and re-runs the tier / seed that produced it.
+/// Protocol coins are not reproducible (DESIGN 2.1), so the case specification is re-executed and
+/// the run reports whether the same signature shows up again.
+fn replay(prop: &str, path: Option<&str>) -> i32 {
+    let Some(path) = path else {
+        eprintln!("usage: pv <ID> replay <path>");
+        return 2;
+    };
+    let Ok(text) = std::fs::read_to_string(path) else {
+        eprintln!("cannot read {path}");
+        return 2;
+    };
+    let Ok(v) = serde_json::from_str::<serde_json::Value>(&text) else {
+        eprintln!("{path} is not JSON");
+        return 2;
+    };
+    let tier = v["tier"].as_str().unwrap_or("quick").to_string();
+    let seed = v["seed"].as_u64().unwrap_or(1);
+    println!("replaying property={} signature={:?}", v["property"].as_str().unwrap_or(prop), v["signature"].as_str().unwrap_or(""));
+    println!("recorded witness:\n{}", serde_json::to_string_pretty(&v["witness"]).unwrap_or_default().lines().take(60).collect::<Vec<_>>().join("\n"));
+    println!("re-running {prop} {tier} with seed {seed} (fresh protocol coins) ...");
+    props::dispatch(prop, &tier, seed, None)
 }
